@@ -1,6 +1,154 @@
-use crate::Host;
-use serde_json::Value;
+use crate::{bytes, reg_by_name, s, u, CoreSlot, FlatBus, Host};
+use sc62015_core::llama::eval::LlamaExecutor;
+use sc62015_core::llama::opcodes::RegName;
+use sc62015_core::llama::state::{LlamaState, PowerState};
+use serde_json::{json, Value};
 
-pub fn dispatch(_host: &mut Host, name: &str, _op: &Value) -> Result<Option<Value>, String> {
-    Err(format!("unknown core op {name}"))
+/// Core level (C06/C07): LlamaExecutor over a flat little-endian bus.
+///   ["c.new", slot]
+///   ["c.load", slot, addr, [bytes]]
+///   ["c.setreg", slot, name, value]          (architectural registers and TEMPn)
+///   ["c.hidden", slot, {temps:[..], call_sub_level:n, pages:[..], frames:[[dest,bits]..], perf:n, call_depth:n}]
+///   ["c.impose", slot, {regs:{..}, mem:[[addr,[bytes]]..], power:0|1|2}]   architectural state only
+///   ["c.run", slot, n, lo, hi] -> [[pc, opcode, len|-1, BA,I,X,Y,U,S,PC,FC,FZ,power,[[addr,val]..]] ...]
+pub fn dispatch(host: &mut Host, name: &str, op: &Value) -> Result<Option<Value>, String> {
+    let slot = u(op, 1)?;
+    match name {
+        "c.new" => {
+            host.cores.insert(
+                slot,
+                CoreSlot {
+                    state: LlamaState::new(),
+                    bus: FlatBus::new(),
+                    exec: LlamaExecutor::new(),
+                },
+            );
+            Ok(None)
+        }
+        "c.load" => {
+            let addr = u(op, 2)? as u32;
+            let data = bytes(op, 3)?;
+            let c = host.cores.get_mut(&slot).ok_or("no core")?;
+            let log = c.bus.log_writes;
+            c.bus.log_writes = false;
+            for (i, b) in data.iter().enumerate() {
+                c.bus.wr(addr.wrapping_add(i as u32), *b);
+            }
+            c.bus.log_writes = log;
+            Ok(None)
+        }
+        "c.setreg" => {
+            let nm = s(op, 2)?.to_string();
+            let v = u(op, 3)? as u32;
+            let c = host.cores.get_mut(&slot).ok_or("no core")?;
+            let reg = reg_by_name(&nm).ok_or_else(|| format!("bad reg {nm}"))?;
+            c.state.set_reg(reg, v);
+            Ok(None)
+        }
+        "c.hidden" => {
+            let cfg = op.get(2).cloned().unwrap_or(json!({}));
+            let c = host.cores.get_mut(&slot).ok_or("no core")?;
+            if let Some(t) = cfg.get("temps").and_then(|x| x.as_array()) {
+                for (i, v) in t.iter().enumerate().take(14) {
+                    if let Some(v) = v.as_u64() {
+                        c.state.set_reg(RegName::Temp(i as u8), v as u32);
+                    }
+                }
+            }
+            if let Some(v) = cfg.get("call_sub_level").and_then(|x| x.as_u64()) {
+                c.state.set_call_sub_level(v as u32);
+            }
+            if let Some(v) = cfg.get("call_depth").and_then(|x| x.as_u64()) {
+                c.state.set_call_depth(v as u32);
+            }
+            if let Some(p) = cfg.get("pages").and_then(|x| x.as_array()) {
+                for v in p {
+                    if let Some(v) = v.as_u64() {
+                        c.state.push_call_page(v as u32);
+                    }
+                }
+            }
+            if let Some(p) = cfg.get("frames").and_then(|x| x.as_array()) {
+                for f in p {
+                    let dest = f.get(0).and_then(|x| x.as_u64()).unwrap_or(0) as u32;
+                    let bits = f.get(1).and_then(|x| x.as_u64()).unwrap_or(16) as u8;
+                    c.state.push_call_frame(dest, bits);
+                }
+            }
+            if let Some(v) = cfg.get("perf").and_then(|x| x.as_u64()) {
+                sc62015_core::llama::eval::set_perf_instr_counter(v);
+            }
+            Ok(None)
+        }
+        "c.impose" => {
+            let cfg = op.get(2).cloned().unwrap_or(json!({}));
+            let c = host.cores.get_mut(&slot).ok_or("no core")?;
+            if let Some(regs) = cfg.get("regs").and_then(|x| x.as_object()) {
+                for (k, v) in regs {
+                    if let (Some(reg), Some(v)) = (reg_by_name(k), v.as_u64()) {
+                        c.state.set_reg(reg, v as u32);
+                    }
+                }
+            }
+            if let Some(mem) = cfg.get("mem").and_then(|x| x.as_array()) {
+                let log = c.bus.log_writes;
+                c.bus.log_writes = false;
+                for m in mem {
+                    let addr = u(m, 0)? as u32;
+                    let data = bytes(m, 1)?;
+                    for (i, b) in data.iter().enumerate() {
+                        c.bus.wr(addr.wrapping_add(i as u32), *b);
+                    }
+                }
+                c.bus.log_writes = log;
+            }
+            if let Some(p) = cfg.get("power").and_then(|x| x.as_u64()) {
+                c.state.set_power_state(match p {
+                    1 => PowerState::Halted,
+                    2 => PowerState::Off,
+                    _ => PowerState::Running,
+                });
+            }
+            Ok(None)
+        }
+        "c.run" => {
+            let n = u(op, 2)? as usize;
+            let lo = u(op, 3)? as u32;
+            let hi = u(op, 4)? as u32;
+            let c = host.cores.get_mut(&slot).ok_or("no core")?;
+            let mut out: Vec<Value> = Vec::with_capacity(n);
+            for _ in 0..n {
+                let pc = c.state.get_reg(RegName::PC) & 0xFFFFF;
+                if pc < lo || pc > hi {
+                    break;
+                }
+                if c.state.power_state() != PowerState::Running {
+                    break;
+                }
+                let opcode = c.bus.rd(pc);
+                c.bus.writes.clear();
+                let res = std::panic::catch_unwind(std::panic::AssertUnwindSafe(|| {
+                    c.exec.execute(opcode, &mut c.state, &mut c.bus)
+                }));
+                let (len, err): (i64, Value) = match res {
+                    Ok(Ok(l)) => (l as i64, Value::Null),
+                    Ok(Err(e)) => (-1, json!(e.to_string())),
+                    Err(_) => (-2, json!("panic")),
+                };
+                let writes: Vec<Value> = c.bus.writes.iter().map(|(a, v)| json!([a, v])).collect();
+                let st = &c.state;
+                out.push(json!([
+                    pc, opcode, len,
+                    st.get_reg(RegName::BA), st.get_reg(RegName::I), st.get_reg(RegName::X), st.get_reg(RegName::Y),
+                    st.get_reg(RegName::U), st.get_reg(RegName::S), st.get_reg(RegName::PC) & 0xFFFFF,
+                    st.get_reg(RegName::FC), st.get_reg(RegName::FZ), crate::power_code(st), writes, err
+                ]));
+                if len < 0 {
+                    break;
+                }
+            }
+            Ok(Some(Value::Array(out)))
+        }
+        _ => Err(format!("unknown core op {name}")),
+    }
 }
